@@ -60,6 +60,10 @@ type Cert struct {
 	Reserved   []byte
 	SigKey     []byte // CA public key blob
 	Sig        []byte // signature body: string format, string blob [, rest]
+
+	// RawKeyBody, when non-nil, replaces the canonical encoding of Key's
+	// fields (used to write numerically equal, non-minimal mpints).
+	RawKeyBody []byte
 }
 
 const (
@@ -73,7 +77,11 @@ const (
 func (c *Cert) SignedBytes() []byte {
 	var w W
 	w.S(CertType(c.Key.Type)).Str(c.Nonce)
-	c.Key.body(&w)
+	if c.RawKeyBody != nil {
+		w.Raw(c.RawKeyBody)
+	} else {
+		c.Key.body(&w)
+	}
 	w.U64(c.Serial).U32(c.CertType).S(c.KeyID)
 	var p W
 	for _, s := range c.Principals {
